@@ -37,7 +37,19 @@ def conform(rep, rid, where, what, want, got, loc):
         return True
     path, kind, w, g = d
     if kind == "shape":
-        raise AnalysisError(f"{where}: cannot align {what} = {nshow(got)} with the documented formula {nshow(want)}")
+        # a rearrangement keeps the functions, inputs and constants of the formula; a different computation does not
+        def sig(e):
+            fns = {n[1][-1] for n in walk(e) if n[0] == "call" and n[1][0] in ("g", "ext")}
+            leaves = {n for n in walk(e) if n[0] in ("p", "f")}
+            ops = {(n[0], n[1]) for n in walk(e) if n[0] in ("nary", "bin", "un")}
+            return fns, leaves
+        sw, sg = sig(canon(want)), sig(canon(got))
+        if sw == sg:
+            raise AnalysisError(f"{where}: cannot align {what} = {nshow(got)} with the documented formula {nshow(want)}")
+        rep.bad(rid, where, f"{what}: different computation",
+                f"{what} is computed as {nshow(got)}, which uses functions/inputs {sorted(sg[0])} / {sorted(nshow(x) for x in sg[1])} while the documented "
+                f"formula {nshow(want)} uses {sorted(sw[0])} / {sorted(nshow(x) for x in sw[1])}: not a rearrangement of it", loc)
+        return False
     rep.bad(rid, where, f"{what}: {kind} {nshow(g) if isinstance(g, tuple) else g} instead of {nshow(w) if isinstance(w, tuple) else w}",
             f"{what} is computed as {nshow(got)}; the documented formula is {nshow(want)} ({kind} differs: "
             f"{nshow(g) if isinstance(g, tuple) else g} vs {nshow(w) if isinstance(w, tuple) else w})", loc)
@@ -81,6 +93,41 @@ def origin_arg(prog, ctx, a, depth):
     if a[0] == "p":
         return ("param", a[1])
     return ("expr", nshow(a))
+
+
+def fingerprint_final_geometry(prog, rep, rid):
+    """alternate constructors derive the fingerprint size from the FINAL bucket size and error rate (shared with C05)"""
+    er, bs = ("f", SELF, "_error_rate", 0), ("f", SELF, "_bucket_size", 0)
+    wantf = ("call", ("g", "int"), (mcall("ceil", ("bin", "+", ("bin", "+", mcall("log2", ("bin", "/", C(1.0), er)), mcall("log2", bs)), C(1))),), ())
+    # the fingerprint size of a loaded / constructed filter is derived from its FINAL bucket size and error rate
+    rep.rule(rid, "alternate constructors derive the fingerprint size from the final bucket size and error rate", floor=4)
+    for c in ("CuckooFilter", "CountingCuckooFilter"):
+        for mn in ("frombytes", "init_error_rate", "load_error_rate"):
+            f = prog.method(c, mn)
+            okm, seenm = True, False
+            for p in paths(prog, c, f, inline="deep"):
+                if p.exit[0] != "return" or p.exit[1][0] != "new":
+                    continue
+                obj = p.exit[1]
+                given = [cd for cd in p.conds if strip_epochs(cd.atom) in (("cmp", "isnot", ("p", "error_rate"), C(None)), ("cmp", "is", ("p", "error_rate"), C(None)))]
+                if given and ((given[0].atom[1] == "isnot") != given[0].truth):
+                    continue  # error rate not supplied
+                fin = p.fields.get((obj, "_fingerprint_size"))
+                erv = p.fields.get((obj, "_error_rate"))
+                bsv = p.fields.get((obj, "_bucket_size"))
+                if fin is None or erv is None or bsv is None:
+                    continue
+                seenm = True
+                from ..expr import mapx
+                w_here = mapx(wantf, lambda n_: strip_epochs(erv) if n_ == er else (strip_epochs(bsv) if n_ == bs else None))
+                if first_diff(canon(w_here), canon(fin)) is not None:
+                    rep.bad(rid, f"{c}.{mn}", f"fingerprint bits = {nshow(fin)}",
+                            f"{c}.{mn} leaves fingerprint bits = {nshow(fin)} but the structure's final bucket size is {nshow(bsv)} and error rate {nshow(erv)}: "
+                            "the width was derived before the real geometry was known", f.where())
+                    okm = False
+                    break
+            if okm and seenm:
+                rep.ok(rid, f"{c}.{mn}")
 
 
 def check(prog, rep, tier):
@@ -164,6 +211,7 @@ def check(prog, rep, tier):
         rep.ok("C07.error-rate-order", "CuckooFilter._set_error_rate: rate stored, then fingerprint size derived and stored")
     else:
         rep.bad("C07.error-rate-order", "CuckooFilter._set_error_rate", "order", "the fingerprint size is not derived from the freshly stored error rate", se.where())
+    fingerprint_final_geometry(prog, rep, "C07.fingerprint-final-geometry")
     # ------------------------------------------------------------------ determinism
     for (c, f) in (("BloomFilter", g), ("CuckooFilter", cf), ("CuckooFilter", ce)):
         eff = [e for e in E.of(c, f) if e[0] != "fresh"]
